@@ -154,6 +154,12 @@ def fwdAdv (self : Node) (a : Adv) : Adv :=
 def withdrawn (a : Adv) (e : Entry) : Bool :=
   e.kind == 0 && e.origin == a.origin && a.routes.any (fun r => r.kind == 0 && r.key == e.key)
 
+/-- The 1-byte count of a path / seen-by list on the wire. -/
+def maxWireAgents : Nat := 255
+
+/-- SendFullTable does not replay a route whose path would exceed the hop limit (or the wire count). -/
+def hopCap (mh : Nat) : Nat := if mh > 0 ∧ mh < maxWireAgents then mh else maxWireAgents
+
 def hopsOf (a : Adv) : Nat := if a.path.length = 0 then a.seenBy.length else a.path.length
 
 def fwdTargets (peers : List Node) (frm : Node) (seenBy : List Node) : List Node :=
@@ -174,6 +180,8 @@ def handle (mh : Nat) (peers : List Node) (self frm : Node) (clock : Nat) (a : A
     else
       let st2 := a.routes.foldl (storeRoute self frm a clock) st1
       if mh > 0 ∧ hopsOf a ≥ mh then (st2, [], .new)
+      -- floodAdvertisementEncrypted: a list that does not fit the 1-byte wire count is not sent on
+      else if a.seenBy.length + 1 > maxWireAgents ∨ a.path.length + 1 > maxWireAgents then (st2, [], .new)
       else
         let f := fwdAdv self a
         (st2, (fwdTargets peers frm f.seenBy).map (fun p => (p, f)), .new)
@@ -296,7 +304,8 @@ deriving DecidableEq, Repr
     replay, it carries only stored routes of that origin, its path tail is the stored path of one
     of them — or empty, which requires an entry without path (a local route) unless nothing is
     carried at all. -/
-def frameOK (st : NodeSt) (peer : Node) (fr : RFrame) : Bool :=
+def frameOK (cap : Nat) (st : NodeSt) (peer : Node) (fr : RFrame) : Bool :=
+  decide (fr.ptail.length + 1 ≤ cap) &&
   (replayOrigins st peer).contains fr.origin &&
   fr.routes.all (fun r => (baseRoutes st peer fr.origin).contains r) &&
   decide (fr.routes.length ≤ maxRoutesPerAdv) &&
@@ -318,21 +327,23 @@ def isPermOf (ord os : List Node) : Bool :=
   decide (ord.length = os.length) && os.all (fun o => ord.contains o) && ord.all (fun o => os.contains o)
 
 /-- `hint` = the frames the implementation emitted (follow mode). Admissible: every frame is OK;
-    the origins come in runs, one run per origin, in any order (Go map iteration); the runs' route
+    the origins come in runs, at most one run per origin, in any order (Go map iteration); an origin
+    may be missing only if an `x[0]` choice gives a path beyond the cap (`continue`); the runs' route
     groups are an admissible grouping of that origin's stored routes; every frame of a run carries
     the same path tail, one that the `x[0]` choices can produce. -/
-def hintOK (st : NodeSt) (peer : Node) (hint : List RFrame) : Bool :=
-  hint.all (frameOK st peer) &&
-  isPermOf (originRuns hint) (replayOrigins st peer) &&
+def hintOK (cap : Nat) (st : NodeSt) (peer : Node) (hint : List RFrame) : Bool :=
+  hint.all (frameOK cap st peer) &&
+  decide ((originRuns hint).length = (dedup (originRuns hint)).length) &&
   (replayOrigins st peer).all (fun o =>
     let frs := hint.filter (fun fr => fr.origin == o)
-    groupingOK (baseRoutes st peer o) (frs.map (·.routes)) &&
-    (match frs with
-      | [] => false
-      | fr :: t => t.all (fun g => g.ptail == fr.ptail) && (exactTails st peer o).contains fr.ptail))
+    match frs with
+    | [] => (exactTails st peer o).any (fun t => decide (t.length + 1 > cap))   -- skipped: path too long
+    | fr :: t =>
+      groupingOK (baseRoutes st peer o) (frs.map (·.routes)) &&
+      t.all (fun g => g.ptail == fr.ptail) && (exactTails st peer o).contains fr.ptail)
 
-def effFrames (st : NodeSt) (peer : Node) (hint : List RFrame) : List RFrame :=
-  if hintOK st peer hint then hint else (canonFrames st peer).filter (frameOK st peer)
+def effFrames (cap : Nat) (st : NodeSt) (peer : Node) (hint : List RFrame) : List RFrame :=
+  if hintOK cap st peer hint then hint else (canonFrames st peer).filter (frameOK cap st peer)
 
 def replayAdvsAux (self : Node) : List RFrame → Nat → List Adv
   | [], _ => []
@@ -340,8 +351,8 @@ def replayAdvsAux (self : Node) : List RFrame → Nat → List Adv
     { origin := fr.origin, seq := seq + 1, routes := fr.routes, path := self :: fr.ptail, seenBy := [self] }
       :: replayAdvsAux self t (seq + 1)
 
-def replayAdvs (self peer : Node) (st : NodeSt) (hint : List RFrame) : List Adv :=
-  replayAdvsAux self (effFrames st peer hint) st.seq
+def replayAdvs (cap : Nat) (self peer : Node) (st : NodeSt) (hint : List RFrame) : List Adv :=
+  replayAdvsAux self (effFrames cap st peer hint) st.seq
 
 /-! ### the labelled transition system -/
 
@@ -424,7 +435,7 @@ def stepCore (s : Net) : Op → Net
   | .replay a b ord =>
     if a < s.n ∧ b < s.n ∧ linked s a b then
       let st := s.nodes a
-      let advs := replayAdvs a b st ord
+      let advs := replayAdvs (hopCap s.maxHops) a b st ord
       { setNode s a { st with seq := st.seq + advs.length } with
         flight := s.flight ++ advs.map (fun m => { src := a, dst := b, adv := m }) }
     else s
